@@ -20,8 +20,9 @@ import (
 //	level 1 (first call of a history): every operation;
 //	level 2: operations all of whose path operands are "reduced" strings -
 //	         relative strings (incl. "") and absolute strings with a ".."
-//	         element - plus Getwd and the fixed Glob patterns;
-//	level 3 (thorough): as level 2 but only strings of <= 3 segments.
+//	         element - of <= 2 (quick) / <= 3 (thorough) segments, plus Getwd
+//	         and the fixed Glob patterns;
+//	level 3 (thorough): as level 2 but only strings of <= 2 segments.
 //
 // At a deeper level an operation that does not apply is answered by Step with
 // the outcome "n/a" without touching the system (counted apart).
@@ -162,15 +163,26 @@ func segCount(s string) int {
 	return n
 }
 
-func levelOf(maxLevels int, strs ...pathStr) int {
-	lvl := maxLevels
+// tierSegs gives, per tier, the largest number of segments of the strings
+// applied at level 1, 2, 3 (levels >= 2: reduced strings only).
+func tierSegs(tier string) []int {
+	if tier == "thorough" {
+		return []int{4, 3, 2}
+	}
+
+	return []int{3, 2}
+}
+
+func levelOf(segs []int, strs ...pathStr) int {
+	lvl := len(segs)
 
 	for _, p := range strs {
-		switch {
-		case !reduced(p.S):
-			lvl = 1
-		case p.Segs > 3 && lvl > 2:
-			lvl = 2
+		if !reduced(p.S) {
+			return 1
+		}
+
+		for lvl > 1 && p.Segs > segs[lvl-1] {
+			lvl--
 		}
 	}
 
@@ -179,10 +191,8 @@ func levelOf(maxLevels int, strs ...pathStr) int {
 
 // buildOps returns the static operation list of a tier.
 func buildOps(tier string) []opT {
-	maxSeg, maxLevels := 3, 2
-	if tier == "thorough" {
-		maxSeg, maxLevels = 4, 3
-	}
+	segs := tierSegs(tier)
+	maxSeg, maxLevels := segs[0], len(segs)
 
 	var ops []opT
 
@@ -193,7 +203,7 @@ func buildOps(tier string) []opT {
 	}
 
 	for _, p := range pathStrings(maxSeg) {
-		lvl := levelOf(maxLevels, p)
+		lvl := levelOf(segs, p)
 
 		for _, c := range singleCalls {
 			if c == "Glob" && isFixedGlob(p.S) {
@@ -206,7 +216,7 @@ func buildOps(tier string) []opT {
 
 	for _, a := range pairCore {
 		for _, b := range pairCore {
-			lvl := levelOf(maxLevels, pathStr{a, segCount(a)}, pathStr{b, segCount(b)})
+			lvl := levelOf(segs, pathStr{a, segCount(a)}, pathStr{b, segCount(b)})
 
 			for _, c := range []string{"Rename", "Link", "Symlink"} {
 				ops = append(ops, opT{Call: c, A: a, B: b, Two: true, MaxLevel: lvl})
